@@ -271,6 +271,48 @@ func c04Service(w *core.WorkerCtx) {
 			break
 		}
 	}
+	// fixed cases: whatever the node seals itself must pass the vertex verification every receiving node applies.
+	// A transfer proposed with a junk receiver signature (the notary checks the issuer), and an awaiting contract with
+	// a junk receiver signature (gossiped or proposed) that its receiver rejects, which seals it.
+	unverifiable := func(tag, path string) {
+		sn, err := ledger.TakeSnap(rig.Book)
+		if err != nil {
+			return
+		}
+		for h, l := range sn.Live {
+			v := l.V
+			if h == gen.Hash {
+				continue
+			}
+			if err := rig.Book.VerifVerifyVertex(&v); err != nil {
+				r.Violate("C04", "unverifiable-vertex-sealed/"+tag, fmt.Sprintf("%s: the node's ledger holds vertex %s, which its own vertex verification (the one every receiving node applies) refuses: %v", path, ledger.Hex(h), err), nil)
+			}
+		}
+		r.Eval(1)
+		r.Nontriv("service/sealed-vertices-verify/" + tag)
+	}
+	for ji, junk := range [][]byte{{0}, bytes.Repeat([]byte{7}, 64)} {
+		t := ledger.ForgeTrx(u[1], u[2].Addr, fmt.Sprintf("junk receiver signature %d", ji), nil, spice.Melange{SupplementaryCurrency: 5}, time.Now().Add(-time.Minute))
+		t.ReceiverSignature = junk
+		if p, err := transformers.TrxToProtoTrx(t); err == nil {
+			w.Mark("c04 service: transfer with a %d byte junk receiver signature through notary.Propose", len(junk))
+			rig.Notary.Propose(ctx, p)
+			unverifiable("propose-junk-receiver-signature", "notary.Propose of a transfer with a junk receiver signature")
+		}
+		c := ledger.ForgeTrx(u[1], u[2].Addr, fmt.Sprintf("contract with a junk receiver signature %d", ji), []byte("contract"), spice.Melange{}, time.Now().Add(-time.Minute))
+		c.ReceiverSignature = junk
+		if p, err := transformers.TrxToProtoTrx(c); err == nil {
+			w.Mark("c04 service: contract with a %d byte junk receiver signature, then Reject", len(junk))
+			if ji == 0 {
+				rig.Notary.Propose(ctx, p)
+			} else {
+				rig.Gossip.GossipTrx(ctx, &protobufcompiled.TrxMsgGossip{Trx: p})
+			}
+			rig.Notary.Reject(ctx, svc.Sign(u[2], c.Hash[:]))
+			unverifiable("reject-junk-receiver-signature", "notary.Reject of an awaiting contract with a junk receiver signature")
+			rig.Cache.RemoveAwaitedTransaction(c.Hash, u[2].Addr)
+		}
+	}
 	n := w.Pick(120, 1200)
 	seq := 0
 	mkBase := func(kind int) transaction.Transaction {
